@@ -88,7 +88,15 @@ s = s[:i] + "## 8. Seeded changes and which checks catch them\n\n" + \
     "hyper-networks, separable networks with time, non-cartesian batches, per-facet dictionaries, observed parameters, user tables, validation " \
     "modules with their own generators, array-valued masks and weights): at first 25 of 60 were not reported by the check of their own property, 15 of " \
     "them by no check (5 of those exit 2). New obligations are listed at the end of section 3; one change is not decided (a float32 cast, see section 6); " \
-    "one more defect of the unmodified tree was repaired (b0294ed).\n\n" + \
+    "one more defect of the unmodified tree was repaired (b0294ed). " \
+    "Round 6 (`Cxx_r6mK`, 'library-API semantics': a wrong argument of a JAX / equinox / numpy call - axes of vmap and of reductions, argnums, " \
+    "is_leaf, operand and branch order, modes, dtypes, field options, stop_gradient on the wrong operand) was aimed at the trusted models: at " \
+    "first 37 of 59 were not reported by the check of their own property, 26 of them by no check (6 of those exit 2). It exposed one wrong model " \
+    "(`swapaxes` with a negative axis behaved like `moveaxis`), keywords that models silently dropped (`has_aux`, `where=`, `total_repeat_length`, " \
+    "`reverse`, `mode`, ...: now outside the vocabulary instead of ignored), a NaN-unsafe identification of a selection on a comparison with " \
+    "`minimum` / `maximum`, and missing obligations (dictionary orders against sorted pytree leaves, field converters through the constructors, " \
+    "an empty parameter batch, constructor counters, stop_gradient on the hyper-network input or on a differentiated variable, donated buffers, " \
+    "non-array data in dynamic fields). Nine are not decided (dtypes, single-row squeezes, a cached weight, `resize`; section 6).\n\n" + \
     tab + "\n\nOne candidate was dropped: `C16_m3` (`i <= start_iter` -> `i < start_iter` in `rar_step_false`). It was produced against " \
     "the tree before repair fc78006; on the repaired tree the period counter equals `update_every - 1` at `start_iter`, a non-step at " \
     "`i == start_iter` can then only be caused by a full store, and the change no longer alters any observable count (its demo passes " \
